@@ -71,7 +71,7 @@ func runC17(c *Ctx) {
 		sp := genSpec(rng, "C17", idx)
 		nf := len(sp.Files)
 		for k := 0; k < 1+rng.Intn(4); k++ {
-			sp.Mutations = append(sp.Mutations, mutation{AtAction: 3 + rng.Intn(160), File: rng.Intn(nf), Kind: []string{"rewrite", "append", "replace", "touch", "rewrite-older", "touch-older"}[rng.Intn(6)]})
+			sp.Mutations = append(sp.Mutations, mutation{AtAction: 3 + rng.Intn(160), File: rng.Intn(nf), Kind: []string{"rewrite", "append", "replace", "touch", "rewrite-older", "touch-older", "rewrite-same-second"}[rng.Intn(7)]})
 		}
 		if rng.Intn(3) == 0 {
 			sp.Faults = []fault{{Kind: []string{fCutMid, fLostAnswer, fPollFail, fFailPart}[rng.Intn(4)], Nth: 1 + rng.Intn(4), K: rng.Intn(3)}}
